@@ -474,7 +474,14 @@ struct forest
     case 17:
     {
       std::size_t const ia = static_cast<std::size_t>(x % nodes.size()), ib = static_cast<std::size_t>(y % nodes.size());
-      if (ia == ib) break;
+      if (ia == ib)
+      {
+        // the operand is the node itself: self-swap and self-copy-assignment (explicitly handled by
+        // the implementation) leave the node unchanged; self-move-assignment is not generated
+        if (op == 13) { if (z & 1U) t.swap(t); else swap(t, t); cls("self-swap"); }
+        else if (op == 16) { tree &self = t; t = static_cast<tree const &>(self); cls("self-copy-assign"); }
+        break;
+      }
       // Domain: a and b unrelated, or (assignments only) b a proper descendant of a - "replace a node
       // by one of its sub-trees". The implementation supports that by first moving / copying the
       // source's children into a temporary list; the source is destroyed together with a's old
